@@ -36,11 +36,23 @@ def _rho2_h(pt, c, axis):
     return dot(d, d) - h * h, h
 
 
+def torus_hd(h2, d2, A, B, C):
+    """Torus function in terms of the squared axial coordinate h2 and the squared distance d2 to the centre:
+    h2/B^2 + (sqrt(d2 - h2) - A)^2/C^2 - 1.  (The torus is symmetric under reversal of its axis.)"""
+    rho = sqrt_(d2 - h2)
+    return _div(h2, B * B) + _div((rho - A) * (rho - A), C * C) - 1
+
+
+def torus_args(pt, c, axis):
+    d = sub(pt, c)
+    h = dot(d, axis)
+    return h * h, dot(d, d)
+
+
 def torus_f(pt, c, axis, A, B, C):
     """(h/B)^2 + ((rho - A)/C)^2 - 1 with h the axial and rho the radial coordinate (unit axis)."""
-    rho2, h = _rho2_h(pt, c, axis)
-    rho = sqrt_(rho2)
-    return _div(h * h, B * B) + _div((rho - A) * (rho - A), C * C) - 1
+    h2, d2 = torus_args(pt, c, axis)
+    return torus_hd(h2, d2, A, B, C)
 
 
 def mcnp_region(mn, p, pt):
@@ -190,3 +202,13 @@ def t4_region(coll, pt):
     """Region spec of a SurfaceCollection (or list of (SurfaceT4, side))."""
     surfs = coll.surfs if hasattr(coll, 'surfs') else coll
     return [(t4_view(s, pt), side) for s, side in surfs]
+
+
+def t4_local_point(surf, pt):
+    """Point of the main frame expressed in the local frame of a SurfaceT4 (identity without TRANSFORM)."""
+    if surf.transform is None:
+        return pt
+    tr, mat = surf.transform
+    rows = mat.tolist() if hasattr(mat, 'tolist') else mat
+    tv = list(tr.tolist() if hasattr(tr, 'tolist') else tr)
+    return matvec(transpose(rows), sub(pt, tv))
